@@ -22,7 +22,7 @@ from ..monitors import call_sanitized, deep_digest, abort_then_call, thread_prob
 EMD_FILES = ('/emd/sift.py', '/emd/spectra.py', '/emd/cycles.py', '/emd/_cycles_support.py', '/emd/utils.py', '/emd/support.py', '/emd/logger.py')
 
 MANIFEST = {
-    'text': 'Held on every call executed: 40+ public numeric entry points (six sift variants, single-IMF extraction plain and masked, mask-frequency estimate, envelope and extrema routines, frequency transform and its helpers, three spectra, bin constructors, cycle detection / statistics / alignment / binning / matching / container operations, amplitude normalisation and the other utils) are called on seeded inputs made read-only, with option dictionaries shared between successive calls; a byte-level mutation sanitizer compares every array / dict / list argument before and after each call, each deterministic call is repeated and compared, the documented layout table ((n,), (n,1), (n,1,1) accepted and array_equal; (n,2), (1,n), (n,2,3) rejected; vector == single column for transforms and cycle routines) and the length-mismatch table are enforced. Sampling of inputs, complete over the entry-point table.',
+    'text': 'Held on every call executed: 40+ public numeric entry points (six sift variants, single-IMF extraction plain and masked, mask-frequency estimate, envelope and extrema routines, frequency transform and its helpers, three spectra, bin constructors, cycle detection / statistics / alignment / binning / matching / container operations, amplitude normalisation and the other utils) are called on seeded inputs made read-only, with option dictionaries shared between successive calls; a byte-level mutation sanitizer compares every array / dict / list argument before and after each call, each deterministic call is repeated and compared, the documented layout table ((n,), (n,1), (n,1,1) accepted and array_equal; (n,2), (1,n), (n,2,3) rejected; vector == single column for transforms and cycle routines) and the length-mismatch table are enforced. Sampling of inputs, complete over the entry-point table. Schedules: the same deterministic calls made from 4-5 threads of one interpreter at once (thread switch every 1-10 microseconds) must reproduce the results obtained alone. Faults: a call abandoned at an arbitrary statement (sys.monitoring failpoint) must leave nothing behind for the next valid call. Returned results of every entry point are held untouched and re-read after later calls. A quarter of the shards run in a session that turns Deprecation/Future/UserWarnings into errors.',
     'note': 'Trusted: numpy digests. An entry point that cannot run on a read-only array because it writes into its input is a violation (that is what the sanitizer is for). is_imf is not in the property\'s entry-point list (and is broken on numpy 2 by an unrelated np.alltrue in a log message).',
     'technique': 'mutation sanitizer + differential layout oracle + repeat-call determinism monitor wrapped around the real entry points',
 }
